@@ -8,6 +8,10 @@
 #define H_ENTRY(name) extern "C" void name(void)
 // final statement of every harness: reachability witness
 #define H_END() vf_witness("end")
+// run a statement that may throw; vfh_exc = 0 none, 1 std::exception family, 2 bool, 3 anything else
+#include <stdexcept>
+static int vfh_exc = 0;
+#define H_TRY(stmt) do { vfh_exc = 0; try { stmt; } catch (std::exception &e_) { vfh_exc = 1; } catch (bool b_) { vfh_exc = 2; } catch (...) { vfh_exc = 3; } } while (0)
 // length of a symbolic buffer: a slice fixes it (-DH_LEN=n: allocation sizes stay concrete, one query per length),
 // otherwise it is itself symbolic in [0, maxlen]
 #ifdef H_LEN
